@@ -3,6 +3,6 @@
 (* assemble (one line per terminal state) with the model's verdict.         *)
 EXTENDS CertV2, Json
 GenSpec == Init /\ [][Next]_vars
-EmitB == Done => PrintT("B " \o ToJson([cert |-> cert, rot |-> rot, ndef |-> ndef, outcome |-> outcome,
+EmitB == Done => PrintT("B " \o ToJson([cert |-> cert, rot |-> rot, ndef |-> ndef, nren |-> nren, outcome |-> outcome,
                                          failing |-> failing, valid |-> SpecValid(cert, rot, Target)]))
 =============================================================================
